@@ -34,7 +34,20 @@ def rule_channel_order(ctx, repo):
                 names = [src(e_) for e_ in seq.elts]
                 ok = names[0].startswith("self.t") and names[1:] == ["self.x", "self.y", "self.z"]
     ctx.check(ok, "C15.order", "unpack_np/txyz", "txyz = [t | x | y | z]", "column order of the exported matrix is not t, x, y, z", u.W())
-    ok = Q.has("self.t = np.array(list(self._ys.keys()))", u.fn)
+    # the time axis is built from the keys of a stored-row dict (`d.keys()` or iteration over the dict itself), whatever constructor wraps it
+    ok = False
+    for st_ in walk_noscope(u.fn):
+        if isinstance(st_, ast.Assign) and dotted(st_.targets[0]) == "self.t":
+            for x in ast.walk(st_.value):
+                d_ = dotted(x) if isinstance(x, ast.Attribute) else None
+                if d_ in ("self._xs", "self._ys", "self._zs"):
+                    keys = [c_ for c_ in ast.walk(st_.value) if isinstance(c_, ast.Call) and isinstance(c_.func, ast.Attribute)
+                            and c_.func.value is x and c_.func.attr == "keys"]
+                    iterated = [c_ for c_ in ast.walk(st_.value) if (isinstance(c_, ast.Call) and c_.args and c_.args[0] is x and
+                                (dotted(c_.func) or "").split(".")[-1] in ("list", "tuple", "fromiter", "sorted"))
+                                or (isinstance(c_, ast.comprehension) and c_.iter is x)]
+                    if keys or iterated:
+                        ok = True
     ctx.check(ok, "C15.order", "unpack_np/t", "time axis = keys of the stored rows", "time axis no longer taken from the stored row keys", u.W())
     pairs = None
     for n in walk_noscope(u.fn):
@@ -91,7 +104,8 @@ def rule_channel_order(ctx, repo):
 def rule_copy(ctx, repo):
     s = F.method(repo, "DAE", "store", DAE)
     fn = s.fn
-    ok = Q.has("t = self.t.tolist()", fn)
+    # a Python scalar taken from the time array: .tolist() / .item() / float(...)
+    ok = any(Q.has(pt, fn) for pt in ("t = self.t.tolist()", "t = self.t.item()", "t = float(self.t)", "t = float(self.t.item())", "t = float(self.t.tolist())"))
     ctx.check(ok, "C15.copy", "DAE.store/key", "row key is a Python float copy of the time (not the live array)",
               "rows are keyed by the live dae.t array object", s.W())
     bad = []
